@@ -142,6 +142,20 @@ def laws(rng, tier):
     out.append(('"h"/Byte + Select("a"/Int16ub, "b"/Byte)', 'Struct("h"/Byte, Select("a"/Int16ub, "b"/Byte))', d3, [dict(h=1), dict(h=1, a=2)]))
     out.append(('Struct("a"/Byte) + Struct("b"/Byte)', 'Struct("a"/Byte, "b"/Byte)', d3, [dict(a=1, b=2), dict(a=1)]))
     out.append(('"s"/Struct("a"/Byte) + "t"/Byte', 'Struct("s"/Struct("a"/Byte), "t"/Byte)', d3, [dict(s=dict(a=1), t=2), dict(a=1, t=2)]))
+    # the equivalences also hold where the size is measured instead of parsed (lazy positions), and with context-dependent options
+    exp = 'FocusedSeq("items", "count"/Rebuild(%s, len_(this.items)), "items"/Array(this.count, %s))'
+    for cf, el, d in [('Byte', 'Int16ub', b'\x02\x00\x01\x00\x02\x63\x64'), ('VarInt', 'Int24ul', b'\x01\x01\x02\x03\x63\x64'), ('Byte', 'VarInt', b'\x02\x81\x01\x05\x63\x64'),
+                      ('Int16ub', 'Byte', b'\x00\x03\x01\x02\x03\x63')]:
+        pa, ex = 'PrefixedArray(%s, %s)' % (cf, el), exp % (cf, el)
+        for w in ('FocusedSeq("b", "a"/Lazy(%s), "b"/Byte)', 'FocusedSeq("t", "s"/LazyStruct(%s, "b"/Byte), "t"/Byte)', 'FocusedSeq("t", "s"/LazyArray(1, %s), "t"/Byte)',
+                  'FocusedSeq("t", "s"/LazyStruct("m"/%s, "b"/Byte), "t"/Byte)'):
+            out.append((w % pa, w % ex, [d, d + b'\x07'], [None]))
+    out.append(('Struct("le"/Flag, "v"/ByteSwapped(BytesInteger(3, swapped=this.le)))', 'Struct("le"/Flag, "v"/IfThenElse(this.le, Int24ub, Int24ul))',
+                [b'\x00\x01\x02\x03', b'\x01\x01\x02\x03', b'\x01\x80\x00\x01'], [dict(le=True, v=0x010203), dict(le=False, v=0x010203), dict(le=False, v=0x800001)]))
+    out.append(('Struct("le"/Flag, "v"/ByteSwapped(BytesInteger(2, signed=True, swapped=this.le)))', 'Struct("le"/Flag, "v"/IfThenElse(this.le, Int16sb, Int16sl))',
+                [b'\x00\x80\x01', b'\x01\x80\x01'], [dict(le=True, v=-2), dict(le=False, v=-2), dict(le=False, v=258)]))
+    out.append(('Struct("le"/Flag, "v"/Bitwise(BitsInteger(16, swapped=this.le)))', 'Struct("le"/Flag, "v"/IfThenElse(this.le, Int16ul, Int16ub))',
+                [b'\x00\x80\x01', b'\x01\x80\x01'], [dict(le=True, v=258), dict(le=False, v=258)]))
     out.append(('BitStruct("a"/BitsInteger(3), "b"/Flag, "c"/Nibble)', 'Bitwise(Struct("a"/BitsInteger(3), "b"/Flag, "c"/Nibble))', all_bytes(1, rng, 300) + [b''],
                 [dict(a=a, b=b, c=c) for a in (0, 7, 8) for b in (True, False) for c in (0, 15, 16)]))
     out.append(('BitStruct("a"/BitsInteger(12, signed=True), "b"/BitsInteger(4))', 'Bitwise(Struct("a"/BitsInteger(12, signed=True), "b"/BitsInteger(4)))',
